@@ -63,7 +63,7 @@ func rulePoolUseAfterPut(c *Ctx) {
 	// each property looks only at the packages that produce its output: a use-after-put in the RTSP
 	// writers says nothing about HLS and vice versa
 	scope := map[string][]string{"C10": {"av/format/hls", "service/hls"}, "C13": {"service/rtsp", "service/wsp", "av/format/rtsp", "av/format/rtp"},
-		"C01": {"service/rtsp", "service/wsp"}, "C09": {"av/format/mpegts"}}[c.Prop]
+		"C01": {"service/rtsp", "service/wsp"}, "C09": {"av/format/mpegts"}, "C14": {"av/format/rtsp", "av/format/rtp"}}[c.Prop]
 	ord := map[string]int{}
 	for _, fn := range p.ModFuncs() {
 		if fn.Pkg == nil || !hasAnyPrefix(strings.TrimPrefix(fn.Pkg.Pkg.Path(), modPath+"/"), scope) {
@@ -83,6 +83,25 @@ func rulePoolUseAfterPut(c *Ctx) {
 			buf := stripConv(put.Call.Args[1])
 			// values derived from buf: buf itself, buf.Bytes(), slices thereof
 			derived := map[ssa.Value]bool{buf: true}
+			// results returned together with the pooled object (kvs, sorter := f()) share its storage
+			if mi, ok := buf.(*ssa.MakeInterface); ok {
+				buf2 := stripConv(mi.X)
+				derived[buf2] = true
+				if ex, ok := buf2.(*ssa.Extract); ok {
+					for _, r := range *ex.Tuple.Referrers() {
+						if ex2, ok := r.(*ssa.Extract); ok {
+							derived[ex2] = true
+						}
+					}
+				}
+			}
+			if ex, ok := buf.(*ssa.Extract); ok {
+				for _, r := range *ex.Tuple.Referrers() {
+					if ex2, ok := r.(*ssa.Extract); ok {
+						derived[ex2] = true
+					}
+				}
+			}
 			changed := true
 			for changed {
 				changed = false
